@@ -389,6 +389,25 @@ def run(report, p):
     else:
         r9.check(True, coll, coll.node, "")
 
+    # ------------------------------------------------------------------ R18.10
+    r10 = report.rule(
+        "R18.10",
+        "flatten writes ONE manifest for every history, also for one without any file record (only empty folders): the session's hash list of the collection is "
+        "created on every path to the commit - not only inside the loops that carry records over (commit skips a history for which no list exists: no packing "
+        "list, no collection file)",
+        1,
+    )
+    fl_ = flatten_func(p)[0]
+    g10 = cfg_of(fl_)
+    commits10 = [c for c, tg in p.calls[fl_.qual] if any(t.endswith("commit_session_for_collection") or t.endswith(".commit") for t in tg)]
+    touches = [n for n in walk_no_nested(fl_.node) if isinstance(n, ast.Subscript) and isinstance(n.value, ast.Attribute) and n.value.attr == "new_hash_lists" and isinstance(n.ctx, ast.Load)]
+    for c in commits10:
+        r10.instance(fl_, c, norm(c)[:60])
+        okt = any(g10.dominates(g10.node_for(t_), g10.node_for(c)) and not any(isinstance(a, (ast.For, ast.While)) for a in _anc18(t_)) for t_ in touches)
+        r10.check(okt, fl_, c, "the hash list of the collection only comes into being when the first file record is carried over (`session.new_hash_lists[...]` is touched inside the loops only): for a history that records no file at all flatten exits 0 but writes neither a packing list nor the collection file", construct="collection hash list created only with the first record")
+    if not commits10:
+        raise AnalysisError("flatten: commit call not found")
+
     include_rules(report, p, 'c12', ['R12.11'], 'verify -pl takes the ignore patterns from the packing list: a flattened manifest (which never has a root hash) written without <ignore> makes it report the files the history ignores as new')
     include_rules(report, p, 'c12', ['R12.10'], 'the patterns given to flatten go into the packing list and from there into verify -pl: a pattern string taken apart into characters (`*`) makes verify -pl ignore the whole tree')
     include_rules(report, p, 'c03', ['R3.11'], 'flatten and verify -pl log every record they handle')
@@ -546,6 +565,15 @@ def _inside(n, container):
             return True
         x = parent(x)
     return False
+
+
+def _anc18(n):
+    from sa.model import parent as _p
+
+    x = _p(n)
+    while x is not None:
+        yield x
+        x = _p(x)
 
 
 def finish(report):
